@@ -32,12 +32,11 @@ class FunctionResult:
 
 
 def theory_axioms(names):
-    """z3 axioms for the named theories (decl.AXIOMS entries are (name, builder))."""
-    out = []
-    for name, builder, _lean in decl.AXIOMS:
-        if name in names or name.split(".")[0] in names:
-            out += builder()
-    return out
+    """z3 axioms of the named theory groups (theory/axioms.py; proved in Lean, see pv.theory_gen)."""
+    from theory.axioms import AXIOMS
+    from .theory import to_z3
+
+    return [to_z3(term) for group, name, term, _proof in AXIOMS if group in names]
 
 
 def base_axioms(heap):
@@ -45,9 +44,7 @@ def base_axioms(heap):
     seen = set()
     for key, arr in list(heap.initial.items()):
         if key.startswith("val<"):
-            inner = key[4:key.index(">#")]
-            ktxt = inner.split(",")[0]
-            dom_key = f"dom<{ktxt}>"
+            dom_key = "dom" + key[3:key.rindex("#")]
             if dom_key not in heap.initial:
                 continue
             dom = heap.initial[dom_key]
@@ -171,6 +168,8 @@ def _verify_case(c, fnode, case, label, res, lemma_body=None):
                     # the contract's `result` of a rich comparison denotes the outcome of the operator:
                     # NotImplemented from both sides falls back to identity, i.e. False for == (DESIGN 2.2)
                     val = boolv(False)
+                elif isinstance(val, ExcVal) and not isinstance(rt, TOpaque):
+                    val = coerce(val, rt)
                 elif isinstance(val, (ExcVal, FuncVal, PyObj)):
                     if not (isinstance(rt, TOpaque)):
                         raise Unsupported(f"{c.key}: returns a {val} where {rt} is declared")
